@@ -97,7 +97,23 @@ func genC07(p *Plan, r *RNG) {
 		pip := mustUDPAddr(peer).IP.String()
 		switch r.Intn(10) {
 		case 0, 1:
-			p.Ops = append(p.Ops, Op{Actor: c, Kind: "createperm", At: gap(int64(r.Range(50, 3000)) * ms), A: OpArgs{Peer: peer}})
+			o := Op{Actor: c, Kind: "createperm", At: gap(int64(r.Range(50, 3000)) * ms), A: OpArgs{Peer: peer}}
+			if r.Chance(1, 3) {
+				// one request naming several peers (what a client's periodic refresh of its whole
+				// permission set looks like): each of them gets its own full timeout, and its own expiry
+				o.A.Peers = []string{peer}
+				for k := 1; k < len(p.Peers); k++ {
+					if r.Chance(2, 3) {
+						o.A.Peers = append(o.A.Peers, p.Peers[(pi+k)%len(p.Peers)].Addr)
+					}
+				}
+				if r.Chance(1, 2) {
+					for a, b := 0, len(o.A.Peers)-1; a < b; a, b = a+1, b-1 {
+						o.A.Peers[a], o.A.Peers[b] = o.A.Peers[b], o.A.Peers[a]
+					}
+				}
+			}
+			p.Ops = append(p.Ops, o)
 		case 2:
 			ch := 0x4000 + r.Intn(4)
 			p.Ops = append(p.Ops, Op{Actor: c, Kind: "chanbind", At: gap(int64(r.Range(50, 3000)) * ms), A: OpArgs{Peer: peer, Chan: ch}})
